@@ -270,6 +270,15 @@ func runC12(ctx *Ctx) *Report {
 			mjobs = append(mjobs, c12job{e, hx(d)})
 		}
 	}
+	// rows beyond the scanner's limit through EVERY massive entry point (the splitter is the stage that reports them;
+	// every pipeline has to listen to it)
+	for _, n := range []int{65536, 70000} {
+		for _, d := range [][]byte{[]byte("- " + strings.Repeat("x", n-2) + "\n- b\n"), []byte("- a\n  - b\n- c\n  - " + strings.Repeat("y", n) + "\n- d\n")} {
+			for _, e := range []string{"text", "json", "yaml", "dry", "walk", "verify", "mkdir", "mkdir-alias", "mkdir-dry"} {
+				mjobs = append(mjobs, c12job{e, hx(d)})
+			}
+		}
+	}
 	for nbad := 3; nbad <= 12; nbad += 3 {
 		var sb strings.Builder
 		for i := 0; i < nbad; i++ {
